@@ -30,6 +30,7 @@ pub mod cosim;
 pub mod c13;
 pub mod c08;
 pub mod c09;
+pub mod c14;
 pub mod replay;
 
 pub use engine::chooser::{choose, deviate};
